@@ -46,10 +46,10 @@ impl Lattice {
         &&& self.ends.len() > self.len_char
         &&& Self::cost_room(self.len_char as int, c)
         &&& self.ends[0].len() == 1 && is_bos(self.ends[0][0])
-        &&& forall|e: int, k: int| 1 <= e < self.ends.len() && 0 <= k < self.ends[e].len() ==>
+        // only boundaries 0..=len_char are live; lists beyond them are never read and may hold stale nodes
+        &&& forall|e: int, k: int| 1 <= e <= self.len_char && 0 <= k < self.ends[e].len() ==>
               #[trigger] node_ok(self.ends@, e, self.ends[e][k], c)
-        &&& forall|e: int| self.len_char < e < self.ends.len() ==> (#[trigger] self.ends[e]).len() == 0
-        &&& forall|e: int| 0 <= e < self.ends.len() ==> (#[trigger] self.ends[e]).len() <= 0xffff
+        &&& forall|e: int| 0 <= e <= self.len_char ==> (#[trigger] self.ends[e]).len() <= 0xffff
     }
 
     /// EOS is set, hangs off a non-empty boundary and minimises over it with left id 0
@@ -110,14 +110,14 @@ pub open spec fn back_path(ends: Seq<Vec<Node>>, e: int, k: int) -> Seq<(usize, 
 
 impl Lattice {
     pub open spec fn back_ok(&self) -> bool {
-        &&& self.ends.len() > 0
-        &&& forall|e: int, k: int| 1 <= e < self.ends.len() && 0 <= k < self.ends[e].len() ==>
+        &&& self.ends.len() > self.len_char
+        &&& forall|e: int, k: int| 1 <= e <= self.len_char && 0 <= k < self.ends[e].len() ==>
               #[trigger] back_node_ok(self.ends@, e, self.ends[e][k])
     }
 
     /// every stored node starts at or before boundary s (so no stored node has a predecessor list beyond s)
     pub open spec fn frontier(&self, s: int) -> bool {
-        forall|e: int, k: int| 1 <= e < self.ends.len() && 0 <= k < self.ends[e].len() ==>
+        forall|e: int, k: int| 1 <= e <= self.len_char && 0 <= k < self.ends[e].len() ==>
             (#[trigger] self.ends[e][k]).start_node as int <= s
     }
 
@@ -127,6 +127,6 @@ impl Lattice {
         &&& self.eos.is_none()
         &&& self.ends.len() > len
         &&& self.ends[0].len() == 1 && is_bos(self.ends[0][0])
-        &&& forall|e: int| 1 <= e < self.ends.len() ==> (#[trigger] self.ends[e]).len() == 0
+        &&& forall|e: int| 1 <= e <= len ==> (#[trigger] self.ends[e]).len() == 0
     }
 }
